@@ -58,57 +58,52 @@ def run(R, env):
         for op in rq:
             R.ob("C05.R2", "LiquidUnstake:request=%s:key" % name, key_ok(op["args"][2]), "request written under %s, expected (pending batch id, info.sender)" % fmt(op["args"][2])[:140], loc=op["loc"], fn=hk)
             R.ob("C05.R2", "LiquidUnstake:request=%s:on-every-success-path" % name, must_pass(w, op["root_bb"]), "unstake can succeed without recording the request", loc=op["loc"], fn=hk)
+            val = op.get("value")
+            recs = list(val[1]) if val is not None and val[0] == "phi" else ([val] if val is not None else [])
+            is_old = lambda t: t[0] == "payload" and req_pred(("payload", shared.unwrap_payload(t), "Ok/Some")) and shared.unwrap_payload(t)[0] == "call"
             if want:
-                good = op["op"] == "update"
-                if good:
-                    res = closure_result(prog, op["args"][3], params={2: ("stored", "req")})
-                    old = ("payload", ("stored", "req"), "Ok/Some")
-                    alts = [r for r in (res[1] if res and res[0] == "phi" else (res,)) if r and not (r[0] == "agg" and r[2] == "Err")]
-                    good = bool(alts)
-                    for r in alts:
-                        rec = r[3][0][2] if r[0] == "agg" and r[2] == "Ok" else None
-                        if rec is None or rec[0] != "agg":
-                            good = False
-                            continue
-                        am = fold(agg_field(rec, "amount"))
-                        am_ok = (am[0] == "call" and am[1] == "std::ops::Add::add" and {norm(am[2][0]), norm(am[2][1])} == {norm(("field", old, "amount")), norm(_paid_term(h, prog, paid))}) if _paid_term(h, prog, paid) else False
-                        if not (norm(agg_field(rec, "batch_id")) == norm(("field", old, "batch_id")) and norm(agg_field(rec, "user")) == norm(("field", old, "user")) and am_ok):
-                            good = False
-                R.ob("C05.R2", "LiquidUnstake:request=Some:accumulates", good, "existing request is not replaced by {same batch_id, same user, amount: old + paid}", loc=op["loc"], fn=hk)
+                good = bool(recs)
+                pt = _paid_term(h, prog, paid)
+                for rec in recs:
+                    if rec[0] != "agg":
+                        good = False
+                        continue
+                    bid, usr, am = agg_field(rec, "batch_id"), agg_field(rec, "user"), fold(agg_field(rec, "amount") or ("none",))
+                    bid_ok = bid is not None and ((bid[0] == "field" and bid[2] == "batch_id" and is_old(bid[1])) or pend(bid))
+                    usr_ok = usr is not None and ((usr[0] == "field" and usr[2] == "user" and is_old(usr[1])) or is_sender(usr))
+                    am_ok = False
+                    if pt is not None and am[0] == "call" and am[1] == "std::ops::Add::add":
+                        x, y = am[2]
+                        for u, v in ((x, y), (y, x)):
+                            if u[0] == "field" and u[2] == "amount" and is_old(u[1]) and norm(v) == norm(pt):
+                                am_ok = True
+                    if pt is not None and am[0] == "mut" and am[2].endswith("AddAssign::add_assign") and am[1][0] == "field" and am[1][2] == "amount" and is_old(am[1][1]) and norm(am[3][0]) == norm(pt):
+                        am_ok = True
+                    if not (bid_ok and usr_ok and am_ok):
+                        good = False
+                R.ob("C05.R2", "LiquidUnstake:request=Some:accumulates", good, "existing request is not replaced by {same batch_id, same user, amount: old + paid}: %s" % fmt(val or ("none",))[:200], loc=op["loc"], fn=hk)
             else:
-                good = op["op"] == "save"
-                if good:
-                    rec = op["args"][3]
-                    good = rec[0] == "agg" and pend(agg_field(rec, "batch_id")) and is_sender(agg_field(rec, "user")) and paid(agg_field(rec, "amount"))
-                R.ob("C05.R2", "LiquidUnstake:request=None:creates", good, "new request is not {batch_id: pending id, user: info.sender, amount: paid}: %s" % fmt(op["args"][-1])[:200], loc=op["loc"], fn=hk)
+                good = bool(recs) and all(rec[0] == "agg" and pend(agg_field(rec, "batch_id")) and is_sender(agg_field(rec, "user")) and paid(agg_field(rec, "amount")) for rec in recs)
+                R.ob("C05.R2", "LiquidUnstake:request=None:creates", good, "new request is not {batch_id: pending id, user: info.sender, amount: paid}: %s" % fmt(val or ("none",))[:200], loc=op["loc"], fn=hk)
         for op in bt:
             R.ob("C05.R2", "LiquidUnstake:request=%s:batch-key" % name, pend(op["args"][2]), "batch updated under %s" % fmt(op["args"][2])[:100], loc=op["loc"], fn=hk)
             R.ob("C05.R2", "LiquidUnstake:request=%s:batch-on-every-success-path" % name, must_pass(w, op["root_bb"]), "unstake can succeed without adding to the batch total", loc=op["loc"], fn=hk)
-            # evaluate the closure in the same world (it sees the world through a captured boolean)
-            cc = closure_ctx(prog, op["args"][3], params={2: ("stored", "batches")})
-            good = cc is not None
-            if good:
-                rem2, _ = world_edges(cc, req_pred, want)
-                cw = cc.with_removed(rem2).settle()
-                res = cw.T.return_term()
-                alts = [r for r in (res[1] if res[0] == "phi" else (res,)) if not (r[0] == "agg" and r[2] == "Err")]
-                good = len(alts) == 1 and alts[0][0] == "agg" and alts[0][2] == "Ok"
-                if good:
-                    ds = struct_deltas(alts[0][3][0][2])
-                    good = len(ds) == 1
-                    for base, d in ds:
-                        want_fields = {("batch_total_liquid_stake",)} | (set() if want else {("unstake_requests_count",)})
-                        if set(d) != want_fields or not shared.is_stored_base(prog, base, "batches", CRATE):
-                            good = False
-                            continue
-                        v = d[("batch_total_liquid_stake",)]
-                        if not (delta_op(v)[0] == "+=" and paid(delta_op(v)[1])):
-                            good = False
-                        if not want:
-                            cnt = fold(d[("unstake_requests_count",)])
-                            okc = cnt[0] == "agg" and cnt[2] == "Some" and cnt[3][0][2][0] == "bin" and cnt[3][0][2][1] == "Add" and const_int(cnt[3][0][2][3]) == 1
-                            if not okc:
-                                good = False
+            # the value written in this world (an update closure sees the world through a captured boolean)
+            ds = shared.write_value_alternatives(prog, op, "batches") or []
+            good = len(ds) == 1
+            for base, d in ds:
+                want_fields = {("batch_total_liquid_stake",)} | (set() if want else {("unstake_requests_count",)})
+                if set(d) != want_fields or not shared.is_stored_base(prog, base, "batches", CRATE):
+                    good = False
+                    continue
+                v = d[("batch_total_liquid_stake",)]
+                if not (delta_op(v)[0] == "+=" and paid(delta_op(v)[1])):
+                    good = False
+                if not want:
+                    cnt = fold(d[("unstake_requests_count",)])
+                    okc = cnt[0] == "agg" and cnt[2] == "Some" and cnt[3][0][2][0] == "bin" and cnt[3][0][2][1] == "Add" and const_int(cnt[3][0][2][3]) == 1
+                    if not okc:
+                        good = False
             R.ob("C05.R2", "LiquidUnstake:request=%s:batch-delta" % name, good, "in this world the pending batch is not updated by exactly {batch_total_liquid_stake += paid%s}" % ("" if want else ", unstake_requests_count += 1"), loc=op["loc"], fn=hk)
     # ---------------- R3: key == record for every write in the crate; index closure
     n = 0
@@ -117,7 +112,22 @@ def run(R, env):
             if op["kind"] == "w" and ns_of(prog, op["args"][0]) == "unstake_requests" and op["op"] == "save":
                 n += 1
                 k, rec = op["args"][2], op["args"][3]
-                good = k[0] == "tuple" and rec[0] == "agg" and norm(k[1][0]) == norm(agg_field(rec, "batch_id")) and norm(k[1][1]) == norm(agg_field(rec, "user"))
+
+                def same_or_inherited(f, kv, rec_):
+                    # the record's field is the key component, or the same field of the record that
+                    # was loaded under this very key (key == record holds inductively)
+                    v_ = agg_field(rec_, f)
+                    if v_ is None:
+                        return False
+                    if norm(v_) == norm(kv):
+                        return True
+                    if v_[0] == "field" and v_[2] == f:
+                        c_ = shared.unwrap_payload(v_[1])
+                        return c_[0] == "call" and c_[1].endswith(("IndexedMap::may_load", "IndexedMap::load")) and ns_of(prog, c_[2][0]) == "unstake_requests" and norm(c_[2][2]) == norm(k)
+                    return False
+
+                recs_ = list(rec[1]) if rec[0] == "phi" else [rec]
+                good = k[0] == "tuple" and all(r_[0] == "agg" and same_or_inherited("batch_id", k[1][0], r_) and same_or_inherited("user", k[1][1], r_) for r_ in recs_)
                 R.ob("C05.R3", "key==record:%s" % site, good, "record %s saved under key %s" % (fmt(rec)[:120], fmt(k)[:100]), loc=op["loc"], fn=op["fn"])
     R.floor("C05.R3", "unstake_requests saves", n, 1)
     ib = [b for b in prog.fn_bodies(CRATE) if b.kind == "fn" and any(call_name(t) == "cw_storage_plus::IndexedMap::new" for _, t in b.calls())]
